@@ -59,6 +59,24 @@ theorem C38_ends_disjoint (schedD schedL : List Nat) (hD : schedD.length < 2^63)
   simp at h1 h2
   omega
 
+/-- Ids are handed out in strictly increasing order along the linearisation: whatever the
+    schedule, a later atomic `Next` step returns a larger id than every earlier one (so each
+    goroutine's own successive ids increase, and no id is ever handed out again later). -/
+theorem C38_ids_increasing (isDialer : Bool) (sched : List Nat) (h : sched.length < 2^63) :
+    (ids isDialer sched).Pairwise (· < ·) := by
+  rw [ids_closed isDialer sched h, List.pairwise_map]
+  exact List.Pairwise.imp (fun {a b} (hab : a < b) => by omega) List.pairwise_lt_range
+
+/-- All identifiers in use on one connection — those of the dialing end together with those of
+    the accepting end — are pairwise distinct. -/
+theorem C38_connection_nodup (schedD schedL : List Nat) (hD : schedD.length < 2^63)
+    (hL : schedL.length < 2^63) : (ids true schedD ++ ids false schedL).Nodup := by
+  rw [List.nodup_append]
+  refine ⟨(C38_unique_nonzero_parity true schedD hD).1, (C38_unique_nonzero_parity false schedL hL).1, ?_⟩
+  intro a ha b hb hab
+  subst hab
+  exact C38_ends_disjoint schedD schedL hD hL a ha hb
+
 /-- The bound is sharp (and astronomically out of reach): the 2^63-th allocation of the accepting
     side would wrap to 0. -/
 theorem C38_bound_sharp (sched : List Nat) (h : sched.length = 2^63) : (0 : Nat) ∈ ids false sched := by
